@@ -37,10 +37,9 @@ CLAIMS['C04'] = {
           '(all exponent differences) and double bit patterns (double + and -: a stated set of exponent differences on every change, all 256 in the thorough tier): '
           'result within 2 ulp (+,-) / less than 1 ulp (*) of the exact result, Overflow only beyond the largest number, zero only below the smallest positive number, '
           'non-canonical zeros included; FloatErrorHandler.handle (soft/hard handling) proved. '
-          'Division: the long-division loop Float._div_den is proved by loop invariant for all mantissa pairs (invariant r = R div 2^i, 0 <= 2QR - (L-w)2^i <= (i-1)2^i, w <= 2r + i; '
-          'nonlinear integer arithmetic): the quotient mantissa is L/R*2^(p-1) within p/2 units; values.div is then proved for ALL single and double operands against that contract: '
-          'division by zero, zero dividend, sign, Overflow / zero only beyond the limits (within the tolerance), and the result within less than 1 ulp of the exact quotient - except the paths where the proved tolerance comes out at exactly 256/256 ulp '
-          '(double: quotient mantissa below one; single: a double normalisation shift), where "at most one unit" is proved and the strict inequality is only sampled by the bounded task.',
+          'Division: the long-division loop Float._div_den is proved by loop invariant for all mantissa pairs (invariant r = R div 2^i, 0 <= 2QR - (L-w)2^i <= (i-1)2^i, w <= 2r + i, '
+          'and the remainder exceeds 2r only through truncation already accounted; nonlinear integer arithmetic): the quotient mantissa is L/R*2^(p-1) within strictly less than p/2 units; values.div is then proved for ALL single and double operands against that contract: '
+          'division by zero, zero dividend, sign, Overflow / zero only beyond the limits (within the tolerance), and the result within strictly less than 1 ulp of the exact quotient on every path.',
   'note': _TB + 'values.mul and values.div are verified against the proved contracts of Float._denormalise / Float._div_den (modular); mul with the mantissa product as a shared atom with interval axioms. A bounded native sampling of division (< 1 ulp) still runs and is reported separately, never counted as proved.',
 }
 CLAIMS['C05'] = {
